@@ -16,7 +16,7 @@ class C02(RailsProp):
     rule = ("one run = one generated configuration (Colang 1.0 modes or Colang 2.x guardrails library; 0-3 output rails, generated or shipped) and one 1-5 turn conversation with a seeded "
             "allow/block/rewrite verdict per (rail, LLM text). non-trivial = turns in which an output rail blocked or rewrote, or turns after such a turn; "
             "distinct = distinct (config class, rail kinds, what happened in earlier turns, this turn's verdict vector)")
-    expected_probes = ["output_block", "output_rewrite", "checked_after_output-block", "checked_after_options-output-off", "checked_after_empty-llm-message"]
+    expected_probes = ["output_block", "output_rewrite", "checked_after_output-block", "checked_after_options-output-off", "checked_after_empty-llm-message", "continued_through_state_object"]
     quick_runs = 420
     thorough_runs = 30000
 
@@ -32,6 +32,10 @@ class C02(RailsProp):
                 if o != "none":
                     turn["options"] = {"output-off": {"rails": {"output": False}}, "input-off": {"rails": {"input": False}}, "log": {"log": {"activated_rails": True}},
                                        "llm-params": {"llm_params": {"temperature": 0.2}}}[o]
+        if sc["colang"] == "1.0" and any(t.get("options") for t in sc["convs"][0]["turns"]) and d.chance(0.5, "state-continuity"):
+            # the requests of the conversation are chained through the returned state object instead of the message list: whatever
+            # an earlier request (with other options) left in the state must not weaken the gate of a later one
+            sc["v1_state_continuity"] = True
         if sc["colang"] == "1.0":
             # rails configured through parameterised flow ids (one shared subflow per side, the rail is chosen by the parameter)
             for side in ("in", "out"):
@@ -75,6 +79,8 @@ class C02(RailsProp):
                 out.probe("checked_after_empty-llm-message")
             if rec.tok in (sc.get("llm_empty") or ()):
                 e.append("empty-llm-message")
+            if sc.get("v1_state_continuity") and rec.t > 0:
+                out.probe("continued_through_state_object")
             RR.check_c02(sc, rec, out, cc, [k for k in e if k.startswith("output") or k.endswith("failure") or k.startswith("options") or k.startswith("empty")])
             kinds = RR.turn_outcome_kinds(sc, rec)
             okinds = [k for k in kinds if k.startswith("output")]
